@@ -80,8 +80,10 @@ let prng_bytes (seed : int64) (len : int) : n list =
 
 let uint64_of_string s = Scanf.sscanf s "%Lu" (fun x -> x)
 
-type ctx = { mutable origs : n list list; (* payloads handed to E.add this round, in order *)
-             mutable recs : n list list }
+type ctx = { mutable origs : (int, n list) Hashtbl.t; (* payloads handed to E.add this round, by position *)
+             mutable norigs : int;
+             mutable recs : n list array }
+let new_ctx () = { origs = Hashtbl.create 64; norigs = 0; recs = [||] }
 
 let payload ctx (tok : string) : n list =
   if tok = "-" then []
@@ -94,8 +96,8 @@ let payload ctx (tok : string) : n list =
        | None -> failwith "bad # payload")
     | '@' ->
       let idx = int_of_string (String.sub tok 2 (String.length tok - 2)) in
-      let l = if tok.[1] = 'o' then ctx.origs else ctx.recs in
-      (match List.nth_opt l idx with Some b -> b | None -> [])
+      if tok.[1] = 'o' then (match Hashtbl.find_opt ctx.origs idx with Some b -> b | None -> [])
+      else if idx < Array.length ctx.recs then ctx.recs.(idx) else []
     | _ -> bytes_of_hex tok
 
 let split_list s = if s = "-" then [] else String.split_on_char ',' s
@@ -159,7 +161,7 @@ let prim toks : string =
     let e = engine_of eng in
     let len64 = int_of_string l64 and pos = int_of_string pos and sizei = int_of_string size in
     let _ = sc in
-    let buf = payload { origs = []; recs = [] } pl in
+    let buf = payload (new_ctx ()) pl in
     let shards = shards_of_buffer len64 buf in
     let (pre, rest) = split_n pos shards in
     let (mid, post) = split_n sizei rest in
@@ -170,7 +172,7 @@ let prim toks : string =
     "ok " ^ hex_of_bytes (buffer_of_shards (pre @ mid' @ post))
   | ["P.mul"; eng; log_m; pl] ->
     let e = engine_of eng in
-    let buf = payload { origs = []; recs = [] } pl in
+    let buf = payload (new_ctx ()) pl in
     let m = n_of_string log_m in
     "ok " ^ hex_of_bytes (List.concat_map (mul_block e m) (chunk 64 buf))
   | ["P.evalpoly"; _eng; trunc; sparse] ->
@@ -198,7 +200,7 @@ let parse_op ctx toks : op option =
   | ["E.neww"; c; e; k; r; sb] -> Some (ENewW (codec_of c, engine_of e, n k, n r, n sb))
   | ["E.parts"] -> Some EParts
   | ["E.reset"; k; r; sb] -> Some (EReset (n k, n r, n sb))
-  | ["E.add"; pl] -> let b = payload ctx pl in ctx.origs <- ctx.origs @ [b]; Some (EAdd b)
+  | ["E.add"; pl] -> let b = payload ctx pl in Hashtbl.replace ctx.origs ctx.norigs b; ctx.norigs <- ctx.norigs + 1; Some (EAdd b)
   | ["E.encode"; probes] -> Some (EEncode (List.map n (split_list probes)))
   | ["D.new"; c; e; k; r; sb] -> Some (DNew (codec_of c, engine_of e, n k, n r, n sb))
   | ["D.neww"; c; e; k; r; sb] -> Some (DNewW (codec_of c, engine_of e, n k, n r, n sb))
@@ -225,9 +227,10 @@ let split_ops (line : string) : string * string list list =
       | t :: r -> go (t :: cur) acc r in
     (id, go [] [] rest)
 
+let adm_mode = ref false
 let run_case alloc oc (line : string) =
   let (id, ops) = split_ops line in
-  let ctx = { origs = []; recs = [] } in
+  let ctx = (new_ctx ()) in
   let st = ref init in
   List.iteri (fun i toks ->
       let res =
@@ -238,14 +241,16 @@ let run_case alloc oc (line : string) =
           (match (try parse_op ctx toks with Failure _ | Invalid_argument _ -> None) with
            | None -> "badcase"
            | Some o ->
+             let adm = if !adm_mode then admissible !st o else [] in
              let (st', r) = step junk !st o in
              (* glue: reference lists *)
              (match o, r with
-              | (ENew _ | ENewW _ | EReset _), ROkUnit -> ctx.origs <- []
-              | EEncode _, REnc (it, _) -> ctx.recs <- it
+              | (ENew _ | ENewW _ | EReset _), ROkUnit -> Hashtbl.reset ctx.origs; ctx.norigs <- 0
+              | EEncode _, REnc (it, _) -> ctx.recs <- Array.of_list it
               | _ -> ());
              st := st';
              let s = str_result r in
+             let s = if !adm_mode then s ^ " | adm=" ^ (match adm with [] -> "-" | _ -> String.concat ";" (List.map str_error adm)) else s in
              if alloc then
                (match o with
                 | Supports _ | Validate _ | OneEnc _ | OneDec _ -> s
@@ -305,7 +310,7 @@ let table_rows infile outfile =
 (* ---------- oracles (specifications, no transforms) ---------- *)
 let oracle infile outfile =
   let ic = open_in infile and oc = open_out outfile in
-  let ctx = { origs = []; recs = [] } in
+  let ctx = (new_ctx ()) in
   (try while true do
        let line = input_line ic in
        let toks = List.filter (fun s -> s <> "") (String.split_on_char ' ' line) in
@@ -317,10 +322,10 @@ let oracle infile outfile =
           let nslots = match origs with [] -> 0 | o :: _ -> List.length o in
           let column s = List.map (fun o -> List.nth o s) origs in
           let cols = List.init nslots column in
-          let spec = if rate = "high" then recovery_high_spec else recovery_low_spec in
+          let rowf = if rate = "high" then cauchy_high_row else cauchy_low_row in
           let outs = List.map (fun j ->
-              let j = n_of_string j in
-              hex_of_bytes (bytes_of_syms (List.map (fun col -> spec k r col j) cols))) (split_list js) in
+              let row = rowf k r (n_of_string j) in
+              hex_of_bytes (bytes_of_syms (List.map (fun col -> row_apply row col) cols))) (split_list js) in
           Printf.fprintf oc "%s %s\n" id (String.concat "," outs)
         | [id; "lch"; sd; is; coeffs] ->
           (* value at point sd+i of the polynomial with LCH coefficients (u16 list) *)
@@ -349,7 +354,7 @@ let oracle infile outfile =
 
 let () =
   match Array.to_list Sys.argv with
-  | _ :: "run" :: infile :: outfile :: rest -> run_file (List.mem "--alloc" rest) infile outfile
+  | _ :: "run" :: infile :: outfile :: rest -> adm_mode := List.mem "--adm" rest; run_file (List.mem "--alloc" rest) infile outfile
   | [_; "tables"; dir] -> tables dir false
   | [_; "tables"; dir; "--full"] -> tables dir true
   | [_; "rows"; infile; outfile] -> table_rows infile outfile
